@@ -63,7 +63,7 @@ func propC17(r *kernel.Run) {
 		r.HarnessErr("split listener: %v", err)
 	}
 	// registered sub-listeners
-	pool := []string{"boundary-worker", "proto-b", "proto-c", nodenet.AuthenticatedNonSpecificNextProto, nodenet.UnauthenticatedNextProto}
+	pool := []string{"boundary-worker", "proto-b", "Proto-C/2", nodenet.AuthenticatedNonSpecificNextProto, nodenet.UnauthenticatedNextProto}
 	subs := map[string]*subListener{}
 	var names []string
 	registerSub := func(n string) {
@@ -179,7 +179,7 @@ func propC17(r *kernel.Run) {
 		case "authenticated":
 			var extras []string
 			nreg := 0
-			for _, cand := range []string{"boundary-worker", "proto-b", "proto-c", "proto-unregistered", nodenet.AuthenticatedNonSpecificNextProto, nodenet.UnauthenticatedNextProto, "v1-nodee-", "h2"} {
+			for _, cand := range []string{"boundary-worker", "proto-b", "Proto-C/2", "proto-unregistered", "proto-c/2", nodenet.AuthenticatedNonSpecificNextProto, nodenet.UnauthenticatedNextProto, "v1-nodee-", "h2"} {
 				if tp.Draw(4) == 0 || (several && tp.Draw(2) == 0) {
 					if subs[cand] != nil {
 						if nreg >= 1 && !several {
